@@ -68,4 +68,37 @@ func init() {
 		Assume:  append([]string{"a failed write is modelled as the walletdb call returning an error without effect; read-side failures and bbolt's own failure modes are not modelled", "address-manager operations are not covered yet (transaction store only)"}, storeAssume...),
 		Outside: "address manager operations; pre-states beyond the listed histories; multiple faults in one operation",
 	})
+	reg(&propDef{
+		ID: "C19",
+		Runs: []hrun{
+			{Pkg: migPkg, Fn: "ZzC19N1", Tiers: "qt", Reach: []string{"c19-end", "reversion", "upgraded", "migration-failed"}, Bound: "version table of length 1, version numbers symbolic uint32, nil or failing migration, symbolic stored version, SetVersion may fail"},
+			{Pkg: migPkg, Fn: "ZzC19N2", Tiers: "qt", Reach: []string{"c19-end", "two-migrations"}, Bound: "table length 2 (any declaration order, numbers symbolic and distinct)"},
+			{Pkg: migPkg, Fn: "ZzC19N3", Tiers: "qt", Reach: []string{"c19-end", "two-migrations"}, Bound: "table length 3"},
+			{Pkg: migPkg, Fn: "ZzC19N4", Tiers: "t", Reach: []string{"c19-end"}, Bound: "table length 4"},
+			{Pkg: wtxmgrPkg, Fn: "ZzC19Store", Tiers: "qt", Reach: []string{"c19-end", "newer", "current", "upgraded", "fault-hit"}, Bound: "real wtxmgr.MigrationManager and Open over memdb with history present; stored version symbolic uint32; optional write fault at symbolic position inside the upgrade transaction"},
+		},
+		Assume:  []string{"memdb for bbolt (wtxmgr part)", "the waddrmgr migration manager is covered only through the generic manager harness (its Versions table is executed by C08/C03 set-up, not with symbolic versions)"},
+		Outside: "tables longer than 4; waddrmgr's concrete migrations with symbolic stored versions; wallet.Open's orchestration",
+	})
+	reg(&propDef{
+		ID: "C07",
+		Runs: []hrun{
+			{Pkg: txauthorPkg, Fn: "ZzC07Out1C1", Tiers: "qt", Reach: []string{"c07-end", "insufficient", "with-change", "without-change"}, Bound: "1 output (P2PKH), 1 coin of each of 4 kinds, 4 change kinds; fee rate, amounts and signature lengths symbolic"},
+			{Pkg: txauthorPkg, Fn: "ZzC07Out0C2", Tiers: "qt", Reach: []string{"c07-end", "several-inputs"}, Bound: "0 outputs, 2 coins (4x4 kinds), 4 change kinds"},
+			{Pkg: txauthorPkg, Fn: "ZzC07Out251C1", Tiers: "qt", Reach: []string{"c07-end"}, Bound: "251 outputs, 1 coin"},
+			{Pkg: txauthorPkg, Fn: "ZzC07Out252C1", Tiers: "qt", Reach: []string{"c07-end", "with-change"}, Bound: "252 outputs (+change = 253: compact-size boundary), 1 coin"},
+			{Pkg: txauthorPkg, Fn: "ZzC07Out253C1", Tiers: "qt", Reach: []string{"c07-end"}, Bound: "253 outputs, 1 coin"},
+			{Pkg: txauthorPkg, Fn: "ZzC07Out2C2", Tiers: "t", Reach: []string{"c07-end", "several-inputs"}, Bound: "2 outputs with 5 script-kind rotations, 2 coins"},
+			{Pkg: txauthorPkg, Fn: "ZzC07Out1C2", Tiers: "t", Reach: []string{"c07-end"}, Bound: "1 output of 5 kinds, 2 coins"},
+			{Pkg: txauthorPkg, Fn: "ZzC07Out2C3", Tiers: "t", Reach: []string{"c07-end"}, Bound: "2 outputs, 3 coins"},
+			{Pkg: txauthorPkg, Fn: "ZzC07Out254C2", Tiers: "t", Reach: []string{"c07-end"}, Bound: "254 outputs, 2 coins"},
+			{Pkg: txauthorPkg, Fn: "ZzC07Out300C2", Tiers: "t", Reach: []string{"c07-end"}, Bound: "300 outputs, 2 coins"},
+		},
+		Assume: []string{
+			"signer output sizes: DER signature + sighash byte 9..72 bytes (low-S), compressed public key 33, Schnorr signature 64..65, nested redeem push 23; uncompressed-key P2PKH excluded (documented BUG in the source)",
+			"the input source hands out the offered coins in order until the target is met (wallet.makeInputSource's algorithm, re-implemented in the harness)",
+			"queries with multiplication/division by constants are decided in an integer encoding whose equivalence to the bit-vector semantics is established per query by interval analysis (intmode.go)",
+		},
+		Outside: "fee rates above 10^11 sat/kvB or below 1000; more than 3 coins; signing itself (the signature bytes) is not run",
+	})
 }
